@@ -562,10 +562,11 @@ impl Formatter {
         }
       },
       ParagraphElement::Highlight(n) => {
+        let p = self.paragraph_element(n);
         if self.html {
-          format!("<mark class=\"mech-highlight\">{}</mark>", n.to_string())
+          format!("<mark class=\"mech-highlight\">{}</mark>", p)
         } else {
-          format!("!!{}!!", n.to_string())
+          format!("!!{}!!", p)
         }
       },
       ParagraphElement::SectionReference(n) => {
@@ -617,24 +618,27 @@ impl Formatter {
         }
       },
       ParagraphElement::Emphasis(n) => {
+        let p = self.paragraph_element(n);
         if self.html {
-          format!("<em class=\"mech-em\">{}</em>", n.to_string())
+          format!("<em class=\"mech-em\">{}</em>", p)
         } else {
-          format!("*{}*", n.to_string())
+          format!("*{}*", p)
         }
       },
       ParagraphElement::Underline(n) => {
+        let p = self.paragraph_element(n);
         if self.html {
-          format!("<u class=\"mech-u\">{}</u>", n.to_string())
+          format!("<u class=\"mech-u\">{}</u>", p)
         } else {
-          format!("_{}_", n.to_string())
+          format!("_{}_", p)
         }
       },
       ParagraphElement::Strikethrough(n) => {
+        let p = self.paragraph_element(n);
         if self.html {
-          format!("<del class=\"mech-del\">{}</del>", n.to_string())
+          format!("<del class=\"mech-del\">{}</del>", p)
         } else {
-          format!("~{}~", n.to_string())
+          format!("~{}~", p)
         }
       },
       ParagraphElement::InlineCode(n) => {
